@@ -145,13 +145,14 @@ func runComp(t interface{ Fatalf(string, ...any) }, root string, caseNo int, spe
 	var gats []*gated.Filter
 	sinks := map[string]*sinkObs{}
 	alias := map[string]string{} // node id -> key of the observation it contributes to
+	needStdout := false
 	var stopDrain []chan struct{}
 	var drainWG sync.WaitGroup
 	keys := []cryptoref.Key{cryptoref.NewKey(1), cryptoref.NewKey(2)}
 	sharedSalt, sharedInfo := []byte("s"), []byte("i")
 	get := func(kind string, share int, formatKeyName string) (string, eventlogger.Node) {
 		id := fmt.Sprintf("%s-%d", kind, share)
-		if kind == "file" || kind == "writer" || kind == "chan" || kind == "filetwin" || kind == "filebroken" {
+		if kind == "file" || kind == "writer" || kind == "chan" || kind == "filetwin" || kind == "filebroken" || kind == "filestdout" {
 			id += "-" + formatKeyName
 		}
 		if n, ok := insts[id]; ok {
@@ -201,6 +202,10 @@ func runComp(t interface{ Fatalf(string, ...any) }, root string, caseNo int, spe
 				sinks[obsKey] = &sinkObs{id: obsKey, kind: "file", dir: dir}
 			}
 			alias[id] = obsKey
+		case "filestdout":
+			// FileSink on the special path /dev/stdout (os.Stdout points at /dev/null for the duration of the case)
+			n = &eventlogger.FileSink{Path: "/dev/stdout", Format: formatKeyName}
+			needStdout = true
 		case "filebroken":
 			// a FileSink whose directory cannot be created (its parent is a regular file): every Process and Reopen fails
 			blocker := filepath.Join(root, fmt.Sprintf("c%d-blocker", caseNo))
@@ -283,6 +288,13 @@ func runComp(t interface{ Fatalf(string, ...any) }, root string, caseNo int, spe
 		perType[ps.ET]++
 	}
 	ctx := context.Background()
+	if needStdout {
+		if dn, err := os.OpenFile("/dev/null", os.O_WRONLY, 0); err == nil {
+			saved := os.Stdout
+			os.Stdout = dn
+			defer func() { os.Stdout = saved; dn.Close() }()
+		}
+	}
 	var wg sync.WaitGroup
 	completions := sync.Map{} // sink id -> *atomic.Int64
 	for id := range sinks {
@@ -448,7 +460,7 @@ func TestC19SharedNodes(t *testing.T) {
 				ET:      rapid.SampledFrom([]string{"A", "A", "A", "B"}).Draw(t, "et"),
 				Filters: rapid.SliceOfN(rapid.SampledFrom(filterKinds), 0, 2).Draw(t, "filters"),
 				Fmt:     rapid.SampledFrom(fmtKinds).Draw(t, "fmt"),
-				Sink:    rapid.SampledFrom([]string{"file", "file", "writer", "writer", "chan", "chan", "filetwin", "filetwin", "filebroken"}).Draw(t, "sink"),
+				Sink:    rapid.SampledFrom([]string{"file", "file", "writer", "writer", "chan", "chan", "filetwin", "filetwin", "filebroken", "filestdout"}).Draw(t, "sink"),
 				Share:   rapid.IntRange(0, 1).Draw(t, "share"),
 			}
 			specs = append(specs, ps)
@@ -515,6 +527,7 @@ func TestC19Pairs(t *testing.T) {
 	comps = append(comps,
 		[]pipeSpec{{ET: "A", Fmt: "json", Sink: "filebroken"}, {ET: "A", Fmt: "json", Sink: "filebroken", Share: 1}, {ET: "A", Fmt: "json", Sink: "file", Share: 2}},
 		[]pipeSpec{{ET: "A", Fmt: "json", Sink: "filetwin"}, {ET: "A", Filters: []string{"filter"}, Fmt: "json", Sink: "filetwin", Share: 1}},
+		[]pipeSpec{{ET: "A", Fmt: "json", Sink: "filestdout"}, {ET: "A", Filters: []string{"filter"}, Fmt: "json", Sink: "filestdout"}, {ET: "B", Fmt: "json", Sink: "filestdout"}},
 		[]pipeSpec{{ET: "A", Filters: []string{"encrypt"}, Fmt: "json", Sink: "filetwin"}, {ET: "A", Filters: []string{"encrypt"}, Fmt: "json", Sink: "filetwin", Share: 1}, {ET: "A", Fmt: "ce-json", Sink: "filebroken", Share: 2}, {ET: "A", Fmt: "ce-json", Sink: "filebroken", Share: 3}},
 	)
 	firsts := append(append([]string{}, filterKinds...), fmtKinds...)
